@@ -50,13 +50,14 @@ class Harness:
 
     def __init__(self, name, tiers=("quick", "thorough"), unwind=None, unwindset=(),
                  timeout=600, mem_gb=8, core=True, note="", stubs=False,
-                 allow_unsat_covers=()):
+                 allow_unsat_covers=(), admit_gb=None):
         self.name = name
         self.tiers = tiers
         self.unwind = unwind
         self.unwindset = list(unwindset)
         self.timeout = timeout
-        self.mem_gb = mem_gb
+        self.mem_gb = mem_gb          # hard limit (RLIMIT_AS) of the cbmc process
+        self.admit_gb = admit_gb      # measured peak used for admission (default: the hard limit)
         self.core = core
         self.note = note
         self.stubs = stubs
@@ -396,7 +397,7 @@ def run_harnesses(harnesses, found, jobs=8, progress=None):
     harnesses = sorted(harnesses, key=lambda h: (not h.core))   # core first (stable)
 
     def one(h):
-        need = min(float(h.mem_gb or 8), budget)
+        need = min(float(h.admit_gb or h.mem_gb or 8), budget)
         with cv:
             while state["used"] + need > budget + 1e-9:
                 cv.wait()
